@@ -179,7 +179,7 @@ func c11Handshake(res *vlib.Result, label, class, tok string) {
 	if r.S.Err == nil {
 		if !valid {
 			res.Violate("C11/server-accepts-invalid-token/"+class, "%s: server authenticated a client whose token is not valid (%s); recorded user %q", label, why, r.S.Neg.User)
-			res.Outcome("VIOLATION-accepted")
+			res.Outcome("finding-accepted")
 			return
 		}
 		if r.S.Neg.User != userOf(sub) {
